@@ -23,7 +23,9 @@ import (
 
 type Event struct {
 	AtUs int64  `json:"at_us"` // simulated microseconds since the start
-	Kind string `json:"kind"`  // signal, broadcast, waiter
+	Kind string `json:"kind"`  // signal, broadcast, waiter, wt (a second WaitTimeout caller)
+	// TimeoutMs: for kind "wt"
+	TimeoutMs uint64 `json:"timeout_ms,omitempty"`
 }
 
 type Call struct {
@@ -90,7 +92,11 @@ func (c16) Gen(rng *simrt.Rand, tier string, run int) interface{} {
 		default:
 			t = expiries[ci] + int64(rng.Pick(1, 300))
 		}
-		p.Events = append(p.Events, Event{AtUs: t, Kind: []string{"signal", "broadcast", "broadcast", "waiter"}[rng.Intn(4)]})
+		e := Event{AtUs: t, Kind: []string{"signal", "broadcast", "broadcast", "waiter", "wt"}[rng.Intn(5)]}
+		if e.Kind == "wt" {
+			e.TimeoutMs = []uint64{0, 1, 5, 50, 3000}[rng.Intn(5)]
+		}
+		p.Events = append(p.Events, e)
 	}
 	sort.SliceStable(p.Events, func(i, j int) bool { return p.Events[i].AtUs < p.Events[j].AtUs })
 	return p
@@ -150,6 +156,7 @@ func (c16) Exec(pj json.RawMessage, tape *simrt.Tape, keepLog bool) harness.RunO
 		// called while holding mu: the stamp order is the lock order
 		evs = append(evs, stampedEv{kind, call, simrt.Stamp(50), simrt.NowNs()})
 	}
+	wtSeq := 0
 	lockHeld := make([]bool, len(p.Calls))
 	panics := make([]string, len(p.Calls))
 	callsDone := 0
@@ -174,6 +181,14 @@ func (c16) Exec(pj json.RawMessage, tape *simrt.Tape, keepLog bool) harness.RunO
 					cond.Broadcast()
 				case "waiter":
 					cond.Wait()
+				case "wt":
+					// another goroutine inside WaitTimeout on the same cond; in the
+					// reference model it is a waiter that leaves the queue when it returns
+					my := wtSeq
+					wtSeq++
+					evs[len(evs)-1].call = -2 - my
+					machine.WaitTimeout(cond, e.TimeoutMs)
+					evs = append(evs, stampedEv{"wt-exit", -2 - my, simrt.Stamp(51), simrt.NowNs()})
 				}
 				mu.Unlock()
 			})
@@ -286,6 +301,17 @@ func (c16) Exec(pj json.RawMessage, tape *simrt.Tape, keepLog bool) harness.RunO
 			queue = nil
 		case "waiter":
 			queue = append(queue, qent{-1})
+		case "wt":
+			queue = append(queue, qent{e.call})
+		case "wt-exit":
+			for qi, q := range queue {
+				if q.call == e.call {
+					// still queued when it returned: that call timed out
+					queue = append(queue[:qi], queue[qi+1:]...)
+					earlierTimeout = true
+					break
+				}
+			}
 		case "exit":
 			i := e.call
 			if !lockHeld[i] {
